@@ -794,6 +794,12 @@ def run_C20(ctx):
                             Classes='{"ListOffset","IndexedOption","Record"}')
     ctx.numba_phase("numba-programs-records", "Session", consts, invariants=["Closed"], constraint="SmallEnough",
                     require_actions=["NumbaOp", "WrapRecord"], max_forms=(16 if q else 150), max_cases_per_form=(300 if q else 3000), timeout=1500)
+    # views with a non-zero start over fixed-size lists of size 2 and 3: ranges then items, items of lists of regular lists
+    consts = session_consts(OpSet='{"numba"}', LeafSet='{Numpy("int64", <<1, 2, 3, 4, 5, 6>>)}', MaxDepth="2", MaxLen="3",
+                            Classes='{"Regular","ListOffset"}')
+    ctx.numba_phase("numba-regular-views", "Session", consts, invariants=["Closed"],
+                    require_actions=["NumbaOp", "WrapRegular", "WrapListOffset"],
+                    max_forms=(24 if q else 400), max_cases_per_form=(300 if q else 3000), timeout=1500)
     return ctx.finish(rule="case = (layout, access program, run-time indexes); the program is compiled by Numba through /repo's lowering once per "
                            "array form and run on every layout of that form; results boxed back and compared with AkNumba!NbExpect; "
                            "reference counts of the layout before/after 20 calls on every 25th case",
